@@ -247,7 +247,9 @@ fn forged(ex: &Exec, v: SideId, rng: &mut Rng) -> Option<String> {
         12 => rnxt.wrapping_add(rng.below(3000) as u32),
         _ => rnxt.wrapping_add(rwnd).wrapping_add(rng.below(200000) as u32),
     };
-    let ack: u32 = match rng.below(10) {
+    let ack: u32 = match rng.below(12) {
+        10 => una.wrapping_add(1 << 31).wrapping_add(rng.below(3) as u32).wrapping_sub(1),
+        11 => nxt_s.wrapping_add(1 << 31).wrapping_add(rng.below(3) as u32).wrapping_sub(1),
         0 => una.wrapping_sub(1),
         1 => una,
         2 => una.wrapping_add(1),
